@@ -5,7 +5,7 @@ use serde_json::json;
 use xplore::*;
 
 const COEF: [f64; 6] = [0.0, 1.0, -1.0, 0.1, -0.3333333333333333, 7.25e5];
-const KX: [f64; 6] = [0.0, 2.0, -2.0, 0.5, -7.3, 1e3];
+const KX: [f64; 10] = [0.0, 2.0, -2.0, 0.5, -7.3, 1e3, 1e-17, -1e-17, 5e-324, 1e5];
 const KY: [f64; 3] = [0.0, 5.0, -1e6];
 const AB: [f64; 5] = [-2.5, 0.0, 0.3, 1.0, 7.0];
 const LANE_ID: [f64; 8] = [1.5, -2.25, 3.125, -4.0625, 5.5, -6.75, 7.875, -8.9375];
@@ -24,7 +24,7 @@ fn poly_exact(c: &[f64], x: &Dy) -> (Dy, Dy) {
     (s, m)
 }
 fn width(n: usize, thorough: bool) -> usize {
-    if n <= 6 { 6 } else if thorough { 5 } else { 4 }
+    if thorough { if n <= 6 { 6 } else { 5 } } else if n <= 5 { 6 } else { 4 }
 }
 /// power-of-two scalings applied to coefficients *and* knot.y: the property is scale invariant, absolute thresholds are not
 pub const SCALES: [f64; 3] = [1.0, 8.673617379884035e-19 /* 2^-60 */, 1099511627776.0 /* 2^40 */];
@@ -93,7 +93,8 @@ where
         return Err(Fail::new("integral(knot) differs from indefinite() in a non-constant coefficient", detail(json!({"indefinite": fjs(&ind), "integral": fjs(&int)}))));
     }
     let (fx, mx) = poly_exact(&int, &dy(knot.x));
-    let tol = mx.add(&dy(knot.y).abs()).mul_pow2(7 - 53);
+    // plus a few subnormal ulps of absolute slack: products that underflow (knot.x = 5e-324) are outside the property
+    let tol = mx.add(&dy(knot.y).abs()).mul_pow2(7 - 53).add(&Dy::pow2(-1071));
     if !fx.sub(&dy(knot.y)).abs().le(&tol) {
         return Err(Fail::new("integral(knot) does not pass through the knot (beyond rounding)", detail(json!({"integral": fjs(&int), "F(knot.x)~": fx.to_f64(), "tolerance~": tol.to_f64()}))));
     }
@@ -161,7 +162,11 @@ where
 }
 
 pub fn check(thorough: bool, _seed: u64) -> Check {
-    let nk = KX.len() * KY.len();
+    // knot ordinates: the alphabet KY, plus ordinates on / next to the unshifted antiderivative F0(knot.x) = sum c_i x^(i+1)/(i+1)
+    // (an implementation that special-cases "the curve already passes through the knot" must still hit the knot)
+    const NEAR: [f64; 5] = [0.0, 2.220446049250313e-16, 1e-13, 3e-10, 1e-6];
+    let ny = KY.len() + NEAR.len();
+    let nk = KX.len() * ny;
     let knots = Phase {
         name: "antiderivative-through-knot",
         units: 8 * nk,
@@ -170,7 +175,23 @@ pub fn check(thorough: bool, _seed: u64) -> Check {
             let d = unit / nk;
             let k = unit % nk;
             let (c, scale) = pick_coeffs(cx, d + 1, thorough);
-            let knot = Knot { x: KX[k / KY.len()], y: KY[k % KY.len()] * scale };
+            let kx = KX[k / ny];
+            let ky = if k % ny < KY.len() {
+                KY[k % ny] * scale
+            } else {
+                // F0(kx) computed by the harness in exact arithmetic, rounded once
+                let mut f0 = Q::zero();
+                let qx = q(kx);
+                let mut p = qx.clone();
+                for (i, &ci) in c.iter().enumerate() {
+                    f0 = f0.add(&q(ci).mul(&p).div_i(i as i64 + 1));
+                    p = p.mul(&qx);
+                }
+                let f0 = f0.to_f64();
+                cx.class(4);
+                f0 * (1.0 + NEAR[k % ny - KY.len()])
+            };
+            let knot = Knot { x: kx, y: ky };
             if scale != 1.0 {
                 cx.class(3);
             }
@@ -183,9 +204,9 @@ pub fn check(thorough: bool, _seed: u64) -> Check {
             }
             by_degree7!(d, knots_leaf(&c, knot, cx))
         }),
-        classes: vec![("knot_x_zero", true), ("knot_x_negative", true), ("knot_x_positive", true), ("scaled_by_2^-60_or_2^40", true)],
-        bounds: json!({"degrees": "0..7", "coefficients": format!("lane-identifier vector + cube over the first w of {{0,1,-1,0.1,-1/3,7.25e5}}: w=6 up to degree 5, w={} for degree 6-7", if thorough {5} else {4}),
-            "knots": "x in {0,2,-2,0.5,-7.3,1e3} x y in {0,5,-1e6} (y scaled like the coefficients)", "scales": "lane-identifier vector and the cube over {0,1,-1/3} also multiplied by 2^-60 and 2^40", "oracle": "exact rational c_i/(i+1); exact dyadic value of the returned polynomial at knot.x"}),
+        classes: vec![("knot_x_zero", true), ("knot_x_negative", true), ("knot_x_positive", true), ("scaled_by_2^-60_or_2^40", true), ("knot_on_or_next_to_the_unshifted_antiderivative", true)],
+        bounds: json!({"degrees": "0..7", "coefficients": format!("lane-identifier vector + cube over the first w of {{0,1,-1,0.1,-1/3,7.25e5}}: w=6 up to degree 4 (5 thorough), w={} above", if thorough {5} else {4}),
+            "knots": "x in {0,2,-2,0.5,-7.3,1e3,1e-17,-1e-17,5e-324,1e5} x y in {0,5,-1e6} (scaled like the coefficients) and y = F0(x)*(1+d), d in {0,2^-52,1e-13,3e-10,1e-6} (knot on / next to the unshifted antiderivative)", "scales": "lane-identifier vector and the cube over {0,1,-1/3} also multiplied by 2^-60 and 2^40", "oracle": "exact rational c_i/(i+1); exact dyadic value of the returned polynomial at knot.x"}),
     };
     let pairs: Vec<(f64, f64)> = AB.iter().flat_map(|&a| AB.iter().filter(move |&&b| b != a).map(move |&b| (a, b))).collect();
     let np = pairs.len();
